@@ -267,7 +267,7 @@ func (h *harness) genCase(r *rng, name, stream string, nops int) *Case {
 		c.Cfg.Frag = float32(f)
 		c.Cfg.SyncMode = r.chance(50)
 	}
-	if h.prop == "C05" || h.prop == "C15" {
+	if h.prop == "C05" || h.prop == "C15" || h.prop == "C07" {
 		// frequent compaction: small segments, low thresholds
 		c.Cfg.MaxSeg = []uint32{1024, 1024, 2048}[r.intn(3)]
 		c.Cfg.MinSeg = []uint32{1, 600}[r.intn(2)]
@@ -546,6 +546,41 @@ func (h *harness) genCase(r *rng, name, stream string, nops int) *Case {
 		c.Ops = append(c.Ops, o, Op{Kind: "dump"}, Op{Kind: "items"})
 		return c
 	}
+	if stream == "ploss" && (h.prop == "C06" || h.prop == "C09") && r.chance(15) {
+		// Close wins the race with a compaction that has just picked (and sealed) the CURRENT segment
+		// while it holds records written since the last Sync: Close returning nil is a durable checkpoint
+		h.stat("gen.closeincompact")
+		c.Cfg.MaxSeg = []uint32{2048, 4096}[r.intn(2)]
+		c.Cfg.MinSeg = 1
+		c.Cfg.FragStr, c.Cfg.Frag = "0.01", 0.01
+		c.Cfg.SyncMode = false
+		c.Pool = keyPool(r, c.Cfg.HashSeed, 5, 0)
+		put := func() {
+			k := c.Pool[r.intn(len(c.Pool))]
+			c.Ops = append(c.Ops, Op{Kind: "put", K: k, V: patternBytes(5+r.intn(60), byte(r.next()))})
+		}
+		for round, nr := 0, 1+r.intn(3); round < nr; round++ {
+			for i, n := 0, 3+r.intn(6); i < n; i++ {
+				put()
+			}
+			if r.chance(50) {
+				c.Ops = append(c.Ops, Op{Kind: "sync"})
+			}
+			for i, n := 0, 1+r.intn(6); i < n; i++ {
+				put()
+				if r.chance(20) {
+					c.Ops = append(c.Ops, Op{Kind: "del", K: c.Pool[r.intn(len(c.Pool))]})
+				}
+			}
+			o := Op{Kind: "compactx"}
+			if r.chance(30) {
+				o.Sub = append(o.Sub, SubOp{At: 0, Kind: "put", K: c.Pool[r.intn(len(c.Pool))], V: patternBytes(9, 'w')})
+			}
+			o.Sub = append(o.Sub, SubOp{At: r.intn(3), Kind: "close"})
+			c.Ops = append(c.Ops, o)
+		}
+		return c
+	}
 	if stream == "ploss" && (h.prop == "C06" || h.prop == "C09") && r.chance(20) {
 		// "... or an earlier recovery": a failure that tears the last record (also inside its 6-byte
 		// header), recovery, then writes that ARE synced, then more power failures (after every op)
@@ -697,7 +732,7 @@ func (h *harness) genCase(r *rng, name, stream string, nops int) *Case {
 	switch h.prop {
 	case "C04":
 		wCrash, wReopen, wCompact = 9, 3, 5
-	case "C05":
+	case "C05", "C07":
 		wCompact, wCrash, wReopen = 14, 2, 2
 	case "C06":
 		wCompact, wSync, wCrash, wReopen = 12, 8, 3, 2
@@ -772,6 +807,10 @@ func (h *harness) genCase(r *rng, name, stream string, nops int) *Case {
 						s.Kind = "del"
 					}
 					o.Sub = append(o.Sub, s)
+				}
+				if (h.prop == "C09" || h.prop == "C10" || h.prop == "C06") && r.chance(25) || r.chance(4) {
+					// Close racing with this compaction at one of its lock-free points
+					o.Sub = append(o.Sub, SubOp{At: r.intn(6), Kind: "close"})
 				}
 				sort.SliceStable(o.Sub, func(a, b int) bool { return o.Sub[a].At < o.Sub[b].At })
 				c.Ops = append(c.Ops, o)
@@ -1621,7 +1660,13 @@ func (s *session) inFirstChain(k []byte) bool {
 // backup runs Backup with writer operations placed at its yield points and opens the result.
 func (s *session) backup(o Op) {
 	h := s.h
-	s.bkNo++
+	if s.bkNo > 0 && s.r.chance(40) {
+		// back up into the directory of the previous backup again (a periodic backup to one place):
+		// whatever compaction removed from the database since must not survive in the destination
+		h.stat("backup.samedir")
+	} else {
+		s.bkNo++
+	}
 	path := fmt.Sprintf("bk%d", s.bkNo)
 	h.emit("bbegin path=%s", path)
 	sub := o.Sub
@@ -1893,8 +1938,9 @@ func (s *session) compact(o Op) {
 	h.emit("cbegin pick=%s", idsOf(pick))
 	yieldNo := 0
 	sub := o.Sub
+	closedInside := false
 	pogreb.VerifSetYield(func(point string) {
-		if !strings.HasPrefix(point, "compact.") {
+		if !strings.HasPrefix(point, "compact.") || closedInside {
 			return
 		}
 		// everything compaction did since the last line is "stable" for crash purposes
@@ -1904,6 +1950,24 @@ func (s *session) compact(o Op) {
 			u := sub[0]
 			sub = sub[1:]
 			h.stat("compactx.userop")
+			if u.Kind == "close" {
+				// Close wins the race with this compaction (it holds no lock here). A Close that returns nil
+				// is a durable checkpoint all the same (C09); the compaction may only fail from here on (C10)
+				if closedInside {
+					continue
+				}
+				err := s.db.Close()
+				h.emit("close %s", errStr(err))
+				closedInside = true
+				sub = nil
+				s.images("stable")
+				if err == nil {
+					h.emit("syncpoint")
+					s.images("stable")
+				}
+				h.stat("compactx.closed")
+				break
+			}
 			if u.Kind == "put" {
 				err := s.db.Put(append([]byte(nil), u.K...), append([]byte(nil), u.V...))
 				h.emit("put %s %s %s", hx(u.K), hx(u.V), errStr(err))
@@ -1920,6 +1984,16 @@ func (s *session) compact(o Op) {
 	})
 	cr, err := s.db.Compact()
 	pogreb.VerifSetYield(nil)
+	if closedInside {
+		h.emit("caborted %s", errStr(err))
+		s.db = nil
+		if s.open("clean") {
+			h.emit("state %s", observe(s.db, s.c.Pool))
+			s.images("stable")
+			s.checkpoint(false)
+		}
+		return
+	}
 	h.emit("cend %s n=%d", errStr(err), cr.CompactedSegments)
 	s.images("stable")
 	if cr.CompactedSegments > 0 {
